@@ -5,7 +5,7 @@ from fractions import Fraction as Fr
 
 import engine
 import streams
-from common import sub_seed
+from common import sub_seed, size
 
 THEOREMS = ["LNN.C03_and_operator_hull",
             "LNN.C03_and_operand_hull",
@@ -143,7 +143,7 @@ def judge(rep, case, rec):
 
 
 def run(rep, tier, seed):
-    n = 50 if tier == "quick" else 1200
+    n = size(tier, 50, 1200)
     cases = [gen_random_case(seed, k) for k in range(n)]
     if tier == "thorough":
         ex = exhaustive_cases()
